@@ -239,6 +239,9 @@ class Violation:
     case: Any = None        # the full (unshrunk) case for the replay file
 
 
+LAST_VERDICTS = None       # the verdict collector of the running check (see harness.main: a rig failure after definite violations)
+
+
 class Verdicts:
     """Collects violations of ONE property check, separates known findings
     from new ones, writes replay files and the evidence file."""
@@ -249,6 +252,8 @@ class Verdicts:
         self.violations: List[Violation] = []
         self.known = [k for k in load_known() if k.get("property") == prop and k.get("status") == "known"]
         self.notes: List[str] = []
+        global LAST_VERDICTS
+        LAST_VERDICTS = self
 
     def add(self, clause: str, witness: Any, detail: str = "", case: Any = None):
         self.violations.append(Violation(self.prop, clause, witness, detail, case))
